@@ -11,7 +11,7 @@
    exactly the check of add_memory_region. *)
 From Coq Require Import ZArith List Bool Permutation.
 From Base Require Import LuaInt.
-From C11 Require Import Gen Model Heap HeapA Spec SpecHeap ProofsArena ProofsStack ProofsPool ProofsHeap ProofsHeapNaf ProofsHeapBytes RefineHeap RefineTop Iface ProofsIface Aligned ProofsAligned.
+From C11 Require Import Gen Model Heap HeapA Spec SpecHeap ProofsArena ProofsStack ProofsPool ProofsHeap ProofsHeapNaf ProofsHeapBytes RefineHeap RefineTop Iface ProofsIface Aligned ProofsAligned GcRereg.
 Import ListNotations.
 Local Open Scope Z_scope.
 
@@ -364,3 +364,20 @@ Print Assumptions C11_aligned_fits_init.
 Theorem C11_aligned_alloc_zero : forall c s, aligned_alloc c s 0 = Some (s, 0).
 Proof. exact aligned_alloc_zero_proof. Qed.
 Print Assumptions C11_aligned_alloc_zero.
+
+(* ---------------- GC allocator: realloc in place (gc.nelua, GC:reregister) ---------------- *)
+(* after a realloc that does not move the block, the collector has it registered with the NEW size -
+   the number of bytes its mark phase scans - whatever the collection that self:step() may run inside
+   reregister does to the item table (entries of garbage removed, node array compacted).  The order
+   of the two statements is scraped from the source; with `item.size = newsize` after the step the
+   build fails (reregister_policy) and the statement is false: *)
+Theorem C11_gc_reregister_size : forall step a p old new, step_keeps p step -> lookup p a = Some old ->
+  lookup p (reregister_inplace REREGISTER_SIZE_BEFORE_STEP step a p new) = Some new.
+Proof. exact reregister_size_proof. Qed.
+Print Assumptions C11_gc_reregister_size.
+
+Theorem C11_gc_reregister_size_iff_policy : forall pol : bool,
+  (forall step a p old new, step_keeps p step -> lookup p a = Some old ->
+     lookup p (reregister_inplace pol step a p new) = Some new) <-> pol = true.
+Proof. exact reregister_size_iff_policy_proof. Qed.
+Print Assumptions C11_gc_reregister_size_iff_policy.
